@@ -55,24 +55,24 @@ SPEC = {
              "package documents as illegal. Non-trivial = >= 2 products from one factory or an error path was taken (illegal "
              "registrations: always); distinct = hash of the case."),
     "floors": {
-        "TestShapes/factory_with_2plus_products": 0.5, "TestShapes/error_as_result": 0.5, "TestShapes/error_as_panic": 0.5,
-        "TestShapes/fillconf_error": 0.3, "TestShapes/constructor_error": 0.3, "TestShapes/registered_factory_error": 0.2,
-        "TestShapes/newfactory_error": 0.25, "TestShapes/config_mutated_by_product": 0.5, "TestShapes/independence_checked": 0.5,
+        "TestShapes/factory_with_2plus_products": 0.5, "TestShapes/error_as_result": 0.38, "TestShapes/error_as_panic": 0.3,
+        "TestShapes/fillconf_error": 0.18, "TestShapes/constructor_error": 0.2, "TestShapes/registered_factory_error": 0.2,
+        "TestShapes/newfactory_error": 0.19, "TestShapes/config_mutated_by_product": 0.35, "TestShapes/independence_checked": 0.5,
         "TestShapes/same_type_no_wrap": 0.5,
-        "TestSequences/kind_component": 0.3, "TestSequences/kind_factory": 0.3, "TestSequences/conf_none": 0.1,
-        "TestSequences/conf_struct": 0.25, "TestSequences/conf_ptr": 0.25, "TestSequences/default_func": 0.25,
+        "TestSequences/kind_component": 0.24, "TestSequences/kind_factory": 0.3, "TestSequences/conf_none": 0.1,
+        "TestSequences/conf_struct": 0.25, "TestSequences/conf_ptr": 0.18, "TestSequences/default_func": 0.25,
         "TestSequences/default_nilptr": 0.04, "TestSequences/form_new": 0.12, "TestSequences/form_factory_err": 0.25,
-        "TestSequences/form_factory_noerr": 0.25, "TestSequences/error_as_panic": 0.08, "TestSequences/error_as_result": 0.3,
+        "TestSequences/form_factory_noerr": 0.17, "TestSequences/error_as_panic": 0.08, "TestSequences/error_as_result": 0.23,
         "TestSequences/factory_with_2plus_products": 0.4, "TestSequences/registered_factory_error": 0.05,
         "TestSequences/same_type_no_wrap": 0.03, "TestSequences/config_mutated_by_product": 0.3,
-        "TestConfigPath/field_component": 0.1, "TestConfigPath/field_factory_err": 0.25, "TestConfigPath/field_factory_noerr": 0.25,
-        "TestConfigPath/factory_with_2plus_products": 0.2, "TestConfigPath/config_error_at_decode": 0.08,
+        "TestConfigPath/field_component": 0.1, "TestConfigPath/field_factory_err": 0.25, "TestConfigPath/field_factory_noerr": 0.17,
+        "TestConfigPath/factory_with_2plus_products": 0.14, "TestConfigPath/config_error_at_decode": 0.08,
         "TestConfigPath/config_error_as_result_at_product": 0.03, "TestConfigPath/config_error_as_panic_at_product": 0.03,
-        "TestConfigPath/partial_overlay_of_default": 0.2, "TestConfigPath/config_mutated_by_product": 0.2,
+        "TestConfigPath/partial_overlay_of_default": 0.2, "TestConfigPath/config_mutated_by_product": 0.12,
         "TestConfigPath/default_invalid_type_only_section": 0.05, "TestConfigPath/default_invalid_partly_overridden": 0.02,
         "TestConfigPath/default_invalid_overridden_by_section": 0.06,
         "TestConfigPath/default_invalid_component_component": 0.008, "TestConfigPath/default_invalid_component_factory_err": 0.015,
-        "TestConfigPath/default_invalid_component_factory_noerr": 0.015, "TestConfigPath/default_invalid_factory_component": 0.008,
+        "TestConfigPath/default_invalid_component_factory_noerr": 0.012, "TestConfigPath/default_invalid_factory_component": 0.008,
         "TestConfigPath/default_invalid_factory_factory_err": 0.015, "TestConfigPath/default_invalid_factory_factory_noerr": 0.015,
     },
     "required_classes": _shape_classes() + ["TestIllegalRegistrations/illegal_" + n for n in _ILLEGAL],
